@@ -452,6 +452,10 @@ class TextModel:
                 items = [x for x in r[2].split(" ") if (_strip(x) if r[0] == "O" else x) not in gaps]
                 if not items:
                     st = "ambiguous:group-left-empty"
+                elif r[0] == "O" and len(items) != len(r[2].split(" ")):
+                    # the property speaks of a gap listed in a *set*; what the removal of a gap means for a path that
+                    # lists it is not pinned down (the library removes the path): callers that compare stop
+                    st = "ambiguous:gap-listed-by-path"
                 r[2] = " ".join(items)
         if self._amb:
             st = "ambiguous:parallel-links-under-path"
